@@ -18,9 +18,8 @@ namespace Drand.Net.Reshare
 /-- in a well-formed state in which no node is ahead of `h`, `Quiet` holds for every set of nodes that hold epoch `e` -/
 theorem quiet_of_sane {nxt : Nat → Option Nat} {s : State} (hs : Sane nxt s) (U : List Nat) (h e : Nat)
     (hh : ∀ k, (s.node k).head ≤ h) (he : ∀ j ∈ U, (s.node j).vault.epoch = e) : Quiet s U h e := by
-  refine ⟨fun m hm _ _ => ?_, fun j _ r k x hx => ?_, fun j hj k x hx => ?_⟩
+  refine ⟨fun m hm _ _ _ => ?_, fun j hj _ k x hx => ?_⟩
   · exact (hs.msgs m hm).2.1 h hh
-  · exact ((hs.node j).heldP r k x hx).2.1 h hh
   · rw [← he j hj]; exact (hs.node j).heldE _ k x hx
 
 /-- **`Quiet` from reachability.** `nxt` is the resharing schedule (`nxt x = some t`: epoch `x` ends at round `t`). From a
@@ -89,9 +88,10 @@ def cxEvs : List Ev :=
    .advance, .tick 0,
    .deliver 5, .deliver 5, .deliverAll]
 
-def cxInit : State := State.init ⟨Gen.transitionLateSwitch⟩ 3 3 cxOld
+/-- `rep`: the variant of `roundCache.append` the nodes run -/
+def cxInit (rep : Bool := false) : State := State.init ⟨Gen.transitionLateSwitch, rep⟩ 3 3 cxOld
 
-def cxFinal : State := cxInit.run cxEvs
+def cxFinal (rep : Bool := false) : State := (cxInit rep).run cxEvs
 
 theorem cx_inlife (x r : Nat) : InLife cxNxt x r ↔ (x = 0 → r < 2) := by
   unfold InLife cxNxt
@@ -109,16 +109,20 @@ connected to each other, hold the new vault and store round 1 = transition − 1
 false: each caches, for round 2 under index 0, the leaver's old-share partial (`held 2 0 = some 0`). Index 0 now belongs to
 node 1, so node 1's own partial and the copy it sends to node 2 are both dropped as "already there" (`cache.Append` is
 keyed by index), `Recover` sees one valid partial out of two, and nothing is ever stored again: three fair rounds later
-every head is still 1. -/
+every head is still 1. With the variant "newest wins" (`cxFinal true`) the same events leave the same stale entries, node 1's
+own partial overwrites the one on index 0 at its next broadcast, and the chain goes on (heads 2, 3, 4). -/
 theorem c07_quiet_counterexample :
     Sched cxNxt cxInit (cxEvs.take 8) ∧ ¬ (Ev.tick 0).sched cxNxt (cxInit.run (cxEvs.take 8)) ∧
     (∀ k, k < 3 → (cxFinal.node k).up = true ∧ (cxFinal.node k).head = 1 ∧ (cxFinal.node k).clock = 2) ∧
     (cxFinal.node 1).vault = ⟨cxNew, 1, 0⟩ ∧ (cxFinal.node 2).vault = ⟨cxNew, 1, 1⟩ ∧ (cxFinal.node 0).vault.epoch = 0 ∧
     (cxFinal.node 1).held 2 0 = some 0 ∧ (cxFinal.node 2).held 2 0 = some 0 ∧
     ¬ Quiet cxFinal [1, 2] 1 1 ∧
-    (∀ k, k < 3 → (cxFinal.fairTick.fairTick.fairTick.node k).head = 1) := by
+    (∀ k, k < 3 → (cxFinal.fairTick.fairTick.fairTick.node k).head = 1) ∧
+    -- "newest wins" (reports/quiet_fix_2.diff): the same events reach the same stale entries, and the chain goes on
+    ((cxFinal true).node 1).held 2 0 = some 0 ∧ ((cxFinal true).node 2).held 2 0 = some 0 ∧
+    (∀ k ∈ [1, 2], ((cxFinal true).fairTick.node k).head = 2 ∧ ((cxFinal true).fairTick.fairTick.fairTick.node k).head = 4) := by
   have hheld : (cxFinal.node 1).held 2 0 = some 0 := by decide
-  refine ⟨?_, ?_, by decide, by decide, by decide, by decide, hheld, by decide, ?_, by decide⟩
+  refine ⟨?_, ?_, by decide, by decide, by decide, by decide, hheld, by decide, ?_, by decide, by decide, by decide, by decide⟩
   · refine ⟨fun _ => by decide, fun _ => by decide, trivial, fun _ => (cx_inlife _ _).mpr (by decide),
       fun _ => (cx_inlife _ _).mpr (by decide), fun _ => (cx_inlife _ _).mpr (by decide), trivial, trivial, trivial⟩
   · intro h
@@ -126,7 +130,7 @@ theorem c07_quiet_counterexample :
     revert h1
     decide
   · intro hq
-    have := hq.2.2 1 (by simp) 0 0 hheld
+    have := hq.2 1 (by simp) (by decide) 0 0 hheld
     cases this
 
 end Drand.Net.Reshare
